@@ -185,6 +185,190 @@ Proof.
     apply Z.ltb_ge. apply Z.eqb_neq in E2. apply Z.lt_le_pred. apply Z.le_neq; auto.
 Qed.
 
+(* ------------------------------------------------------------------------
+   NON-VACUITY (audit): a two-class specification with two different rule shapes, fed to EVERY
+   theorem of this file (the theorems are APPLIED, so Coq checks that the hypotheses discharged
+   below are the theorems' own).  Binary words:
+       class 0 = epsilon + class 1            rule 0 -> [(1,0)]         (union-like, shift 0)
+       class 1 = a.class 0 + b.class 0        rule 1 -> [(0,1);(0,1)]   (repeated child, shift 1)
+   true counts T 0 n = 2^n, T 1 n = 2^n (n >= 1), 0 at n = 0. *)
+Require Import Lia.
+Definition bw_r0 : srule Z :=
+  mkrule Z [(1%nat, 0)] (fun p _ n => if n <? 0 then 0 else (if n =? 0 then 1 else 0) + p 0%nat n).
+Definition bw_r1 : srule Z :=
+  mkrule Z [(0%nat, 1); (0%nat, 1)]
+    (fun p _ n => if n <? 0 then 0 else p 0%nat (n - 1) + p 1%nat (n - 1)).
+Definition bw_spec (c : nat) : option (srule Z) :=
+  match c with 0%nat => Some bw_r0 | 1%nat => Some bw_r1 | _ => None end.
+Definition bw_T (c : nat) (n : Z) : Z :=
+  match c with
+  | 0%nat => if n <? 0 then 0 else 2 ^ n
+  | 1%nat => if n <=? 0 then 0 else 2 ^ n
+  | _ => 0
+  end.
+Definition bw_keys : list fkey := [mkkey 0 [(1%nat, 0)]; mkkey 1 [(0%nat, 1); (0%nat, 1)]].
+Definition bw_ks : list bkey := [mkb (mkkey 0 [(1%nat, 0)]) 1; mkb (mkkey 1 [(0%nat, 1); (0%nat, 1)]) 1].
+
+Lemma bw_keys_spec : forall k, In k bw_keys ->
+  exists r, bw_spec (parent k) = Some r /\ kids k = r_kids Z r.
+Proof. intros k [<-|[<-|[]]]; eexists; split; reflexivity. Qed.
+Lemma bw_T_neg : forall c m, m < 0 -> bw_T c m = 0.
+Proof.
+  intros [|[|c]] m Hm; simpl; auto.
+  - apply Z.ltb_lt in Hm. rewrite Hm. reflexivity.
+  - assert (m <=? 0 = true) as -> by (apply Z.leb_le; lia). reflexivity.
+Qed.
+Lemma bw_op_neg : forall c r, bw_spec c = Some r -> forall p o n, n < 0 -> r_op Z r p o n = 0.
+Proof.
+  intros [|[|c]] r E p o n Hn; try discriminate; injection E as <-; simpl;
+    apply Z.ltb_lt in Hn; rewrite Hn; reflexivity.
+Qed.
+Lemma bw_local : forall c r, bw_spec c = Some r -> local Z r.
+Proof.
+  intros [|[|c]] r E; try discriminate; injection E as <-; intros p p' o o' n Hp Ho; simpl.
+  - destruct (n <? 0); auto. f_equal. apply Hp; simpl; auto. unfold shift; simpl. lia.
+  - destruct (n <? 0); auto. f_equal; apply Hp; simpl; auto; unfold shift; simpl; lia.
+Qed.
+Lemma bw_genuine : forall c r, bw_spec c = Some r -> genuine Z bw_T c r.
+Proof.
+  intros [|[|c]] r E; try discriminate; injection E as <-; intros n Hn; simpl; unfold kid; simpl.
+  - assert (n <? 0 = false) as -> by (apply Z.ltb_ge; auto).
+    destruct (n =? 0) eqn:E0.
+    + apply Z.eqb_eq in E0. subst n. reflexivity.
+    + apply Z.eqb_neq in E0. assert (n <=? 0 = false) as -> by (apply Z.leb_gt; lia). reflexivity.
+  - assert (n <? 0 = false) as -> by (apply Z.ltb_ge; auto).
+    destruct (n <=? 0) eqn:E0.
+    + apply Z.leb_le in E0. assert (n = 0) as -> by lia. reflexivity.
+    + apply Z.leb_gt in E0. assert (n - 1 <? 0 = false) as -> by (apply Z.ltb_ge; lia).
+      replace n with (Z.succ (n - 1)) at 3 by lia. rewrite Z.pow_succ_r by lia. lia.
+Qed.
+Lemma bw_pumps : forall c, (c < 2)%nat -> pumps bw_keys c.
+Proof.
+  assert (forall v, 0 <= v -> derivable bw_keys 0 v /\ derivable bw_keys 1 v) as H.
+  { intros v Hv. pattern v. apply natlike_ind; auto.
+    - split; apply der_zero; lia.
+    - intros x Hx [A B].
+      assert (derivable bw_keys 1 (Z.succ x)) as B'.
+      { apply (der_rule bw_keys (mkkey 1 [(0%nat, 1); (0%nat, 1)])); [simpl; auto|].
+        intros c s [E|[E|[]]]; injection E as <- <-; replace (Z.succ x - 1) with x by lia; auto. }
+      split; auto.
+      apply (der_rule bw_keys (mkkey 0 [(1%nat, 0)])); [simpl; auto|].
+      intros c s [E|[]]; injection E as <- <-. replace (Z.succ x - 0) with (Z.succ x) by lia. auto. }
+  intros c Hc v. destruct (Z_lt_le_dec v 0); [apply der_zero; lia|].
+  destruct c as [|[|c]]; [apply H|apply H|lia]; auto.
+Qed.
+
+(* covers C01_spec_correct *)
+Example C01_spec_correct_nonvacuous :
+  exists f0, forall f, (f0 <= f)%nat -> eval Z 0 bw_spec f 0 5 = 32.
+Proof.
+  apply (C01_spec_correct Z 0 bw_spec bw_T bw_keys bw_keys_spec bw_T_neg bw_op_neg bw_local
+           bw_genuine 0%nat (bw_pumps 0%nat ltac:(auto)) 5). lia.
+Qed.
+(* ... and the evaluator really reaches that value (the existential is not met by the default
+   branch): *)
+Example C01_spec_correct_value : eval Z 0 bw_spec 20 0 5 = 32 /\ eval Z 0 bw_spec 2 0 5 <> 32.
+Proof. split; [vm_compute; reflexivity|vm_compute; discriminate]. Qed.
+
+(* covers C01_unique_solution: U := bw_T itself is a solution (non-trivially so: it satisfies the
+   rule equations by bw_genuine), and a second solution is forced to agree *)
+Example C01_unique_solution_nonvacuous :
+  forall U : nat -> Z -> Z,
+  (forall c m, m < 0 -> U c m = 0) ->
+  (forall c r n, bw_spec c = Some r -> 0 <= n ->
+     r_op Z r (fun i m => U (kid Z r i) m) (U c) n = U c n) ->
+  U 1%nat 4 = 16.
+Proof.
+  intros U Un Us.
+  apply (C01_unique_solution Z 0 bw_spec bw_T U bw_keys bw_keys_spec bw_T_neg bw_local bw_genuine
+           Un Us 1%nat (bw_pumps 1%nat ltac:(auto)) 4). lia.
+Qed.
+Example C01_unique_solution_hyps_satisfiable :
+  (forall c m, m < 0 -> bw_T c m = 0) /\
+  (forall c r n, bw_spec c = Some r -> 0 <= n ->
+     r_op Z r (fun i m => bw_T (kid Z r i) m) (bw_T c) n = bw_T c n).
+Proof. split; [exact bw_T_neg|]. intros c r n E Hn. apply (bw_genuine c r E n Hn). Qed.
+
+(* covers C01_choice_independent: the second specification is the existing one-rule example's
+   shape transplanted to the same universe — class 0 = epsilon + a.0 + b.0 as ONE rule with a
+   repeated child; class 1 keeps its rule.  Both are genuine for the same T. *)
+Definition bw_r0' : srule Z :=
+  mkrule Z [(0%nat, 1); (0%nat, 1)]
+    (fun p _ n => if n <? 0 then 0 else (if n =? 0 then 1 else 0) + p 0%nat (n - 1) + p 1%nat (n - 1)).
+Definition bw_spec' (c : nat) : option (srule Z) :=
+  match c with 0%nat => Some bw_r0' | 1%nat => Some bw_r1 | _ => None end.
+Definition bw_keys' : list fkey := [mkkey 0 [(0%nat, 1); (0%nat, 1)]; mkkey 1 [(0%nat, 1); (0%nat, 1)]].
+Lemma bw_keys_spec' : forall k, In k bw_keys' ->
+  exists r, bw_spec' (parent k) = Some r /\ kids k = r_kids Z r.
+Proof. intros k [<-|[<-|[]]]; eexists; split; reflexivity. Qed.
+Lemma bw_op_neg' : forall c r, bw_spec' c = Some r -> forall p o n, n < 0 -> r_op Z r p o n = 0.
+Proof.
+  intros [|[|c]] r E p o n Hn; try discriminate; injection E as <-; simpl;
+    apply Z.ltb_lt in Hn; rewrite Hn; reflexivity.
+Qed.
+Lemma bw_local' : forall c r, bw_spec' c = Some r -> local Z r.
+Proof.
+  intros [|[|c]] r E; try discriminate; [|apply (bw_local 1%nat); exact E].
+  injection E as <-; intros p p' o o' n Hp Ho; simpl.
+  destruct (n <? 0); auto. f_equal; [f_equal|]; apply Hp; simpl; auto; unfold shift; simpl; lia.
+Qed.
+Lemma bw_genuine' : forall c r, bw_spec' c = Some r -> genuine Z bw_T c r.
+Proof.
+  intros [|[|c]] r E; try discriminate; [|apply (bw_genuine 1%nat); exact E].
+  injection E as <-; intros n Hn; simpl; unfold kid; simpl.
+  assert (n <? 0 = false) as -> by (apply Z.ltb_ge; auto).
+  destruct (n =? 0) eqn:E0.
+  - apply Z.eqb_eq in E0. subst n. reflexivity.
+  - apply Z.eqb_neq in E0. assert (n - 1 <? 0 = false) as -> by (apply Z.ltb_ge; lia).
+    replace n with (Z.succ (n - 1)) at 3 by lia. rewrite Z.pow_succ_r by lia. lia.
+Qed.
+Lemma bw_pumps' : pumps bw_keys' 0.
+Proof.
+  assert (forall v, 0 <= v -> derivable bw_keys' 0 v) as H.
+  { intros v Hv. pattern v. apply natlike_ind; auto.
+    - apply der_zero; lia.
+    - intros x Hx A. apply (der_rule bw_keys' (mkkey 0 [(0%nat, 1); (0%nat, 1)])); [simpl; auto|].
+      intros c s [E|[E|[]]]; injection E as <- <-; replace (Z.succ x - 1) with x by lia; auto. }
+  intros v. destruct (Z_lt_le_dec v 0); [apply der_zero; lia|auto].
+Qed.
+Example C01_choice_independent_nonvacuous :
+  exists f0, forall f, (f0 <= f)%nat -> eval Z 0 bw_spec f 0 6 = eval Z 0 bw_spec' f 0 6.
+Proof.
+  apply (C01_choice_independent Z 0 bw_spec bw_spec' bw_T bw_keys bw_keys' bw_keys_spec bw_keys_spec'
+           bw_T_neg bw_op_neg bw_op_neg' bw_local bw_local' bw_genuine bw_genuine'
+           0%nat (bw_pumps 0%nat ltac:(auto)) bw_pumps' 6). lia.
+Qed.
+
+(* covers C01_forest_pipeline_correct and C01_forest_pipeline_unique (table-method run, extractor
+   and the `_find_rule` hypothesis all on the two-rule universe) *)
+Lemma bw_found : forall k, In k bw_ks ->
+  exists r, bw_spec (parent (bk_key k)) = Some r /\ kids (bk_key k) = r_kids Z r.
+Proof. intros k [<-|[<-|[]]]; eexists; split; reflexivity. Qed.
+Lemma bw_buckets : forall k, In k bw_ks -> (bk_bucket k < 4)%nat.
+Proof. intros k [<-|[<-|[]]]; simpl; auto with arith. Qed.
+Example bw_run_extract :
+  exists st, run pick0 50 init (add_ops bw_ks) = Some st /\ pumping_answer st 0 = true /\
+             extract 50 0 bw_ks = Ok bw_ks.
+Proof. eexists. split; [vm_compute; reflexivity|]. split; vm_compute; reflexivity. Qed.
+Example C01_forest_pipeline_correct_nonvacuous :
+  exists f0, forall f, (f0 <= f)%nat -> eval Z 0 bw_spec f 0 5 = 32.
+Proof.
+  destruct bw_run_extract as (st & Hr & Ha & He).
+  apply (C01_forest_pipeline_correct Z 0 bw_T bw_spec pick0 50 50 0%nat bw_ks bw_ks st Hr Ha
+           bw_buckets He bw_found bw_T_neg bw_op_neg bw_local bw_genuine 5). lia.
+Qed.
+Example C01_forest_pipeline_unique_nonvacuous :
+  forall U : nat -> Z -> Z,
+  (forall c m, m < 0 -> U c m = 0) ->
+  (forall c r n, bw_spec c = Some r -> 0 <= n ->
+     r_op Z r (fun i m => U (kid Z r i) m) (U c) n = U c n) ->
+  U 0%nat 3 = 8.
+Proof.
+  intros U Un Us. destruct bw_run_extract as (st & Hr & Ha & He).
+  apply (C01_forest_pipeline_unique Z 0 bw_T U bw_spec pick0 50 50 0%nat bw_ks bw_ks st Hr Ha
+           bw_buckets He bw_found bw_T_neg bw_local bw_genuine Un Us 3). lia.
+Qed.
+
 (* TOTAL form: termination of the table method (C03_terminates) and totality of the extractor
    (C11_total) remove the two "the run returned" hypotheses, and C11's positional-determinacy
    theorem gives one rule per class.  For EVERY list of inserted forest keys: if the (total) run of
@@ -221,6 +405,17 @@ Example C01_forest_pipeline_total_nonvacuous :
 Proof.
   split; [intros k [<-|[]]; simpl; auto with arith|].
   split; vm_compute; reflexivity.
+Qed.
+
+(* covers C01_forest_pipeline_total, applied: the extractor's answer is determined, and the inner
+   universally quantified specification is instantiated with bw_spec *)
+Example C01_forest_pipeline_total_applied :
+  exists f0, forall f, (f0 <= f)%nat -> eval Z 0 bw_spec f 0 5 = 32.
+Proof.
+  destruct (C01_forest_pipeline_total Z 0 bw_T pick0 50 0%nat bw_ks bw_buckets
+              ltac:(vm_compute; reflexivity) bw_T_neg) as (res & He & _ & H).
+  assert (res = bw_ks) as -> by (vm_compute in He; injection He as <-; reflexivity).
+  apply (H bw_spec bw_found bw_op_neg bw_local bw_genuine 5). lia.
 Qed.
 
 Print Assumptions C01_forest_pipeline_correct.
